@@ -372,6 +372,29 @@ def new_facts():
     return passes, naive_rule, defines
 
 
+def fromiso_probe():
+    """Does the text reader the field type uses (cls.fromisoformat) keep a UTC offset of less than one second?
+    CPython's C implementation answers UTC for any offset whose whole seconds are zero."""
+    import flow.record.fieldtypes as ft
+    us = _pydt.timedelta(microseconds=1)
+
+    def off(text):
+        return ft.datetime.fromisoformat(text).utcoffset() // us
+    exact = [("2000-01-01T00:00:00+00:00:01.000001", 1000001), ("2000-01-01T00:00:00-00:00:01", -1000000),
+             ("2000-01-01T00:00:00-23:59:59.999999", -86399999999), ("2000-01-01T00:00:00+00:00", 0)]
+    for t, want in exact:
+        if off(t) != want:
+            raise Unsupported("fromisoformat(%r) has offset %r microseconds" % (t, off(t)))
+    sub = [("2000-01-01T00:00:00+00:00:00.000001", 1), ("2000-01-01T00:00:00-00:00:00.000001", -1),
+           ("2000-01-01T00:00:00+00:00:00.999999", 999999), ("2000-01-01T00:00:00-00:00:00.500000", -500000)]
+    got = [off(t) for t, _ in sub]
+    if got == [w for _, w in sub]:
+        return False
+    if got == [0, 0, 0, 0]:
+        return True
+    raise Unsupported("fromisoformat reads sub-second offsets as %r" % (got,))
+
+
 # ------------------------------------------------------------------------------------------ display setting
 
 def _mentions_here(n):
@@ -512,6 +535,7 @@ def gen_time():
     sform, scol, sback = sqlite_facts()
     abase, alogical, aepoch, aepoch_off, aguard, aunit = avro_facts()
     passes, naive_rule, defines = new_facts()
+    quirk = fromiso_probe()
     readers = display_readers()
     opf = op_functions()
     out = HEADER
@@ -539,6 +563,8 @@ def gen_time():
     out += "Definition gen_new_naive_rule : string := %s.\n" % cstr(naive_rule)
     out += "Definition gen_new_text_rule : string := \"cls.fromisoformat(arg)\".\n"
     out += "Definition gen_new_epoch_rule : string := \"cls.fromtimestamp(arg, UTC)\".\n"
+    out += "(* probe of cls.fromisoformat on this interpreter: an offset of less than one second is read as UTC *)\n"
+    out += "Definition gen_fromiso_drops_subsecond_offset : bool := %s.\n" % cbool(quirk)
     out += "Definition gen_datetime_class_defines : list string := %s.\n\n" % clist([cstr(x) for x in defines])
     out += "(* every function under flow/record whose code mentions DISPLAY_TZINFO / flow_record_tz / FLOW_RECORD_TZ *)\n"
     out += "Definition gen_display_readers : list string :=\n  %s.\n\n" % clist([cstr(x) for x in readers])
